@@ -5,6 +5,7 @@ hash-table size, so a % 73 is the bucket."""
 from vlib import tz
 ID = "C04"
 FLAVOURS = ["asan"]
+PER_TIMEOUT = 10.0
 HARNESS_SRCS = ["harness/C04.cpp"]
 HP = 73
 NJ = 64
@@ -324,7 +325,7 @@ def items_of(obs):
 def signature(s, obs):
     """first item that differs from the abstract accounting, with the op that produced it"""
     if obs.startswith("!"):
-        return "crash: " + obs[:80]
+        return "crash / sanitizer report / hang"
     layout, ops = split_ops(s)
     sim = Sim()
     its = items_of(obs)
@@ -341,7 +342,33 @@ def signature(s, obs):
     return "layout %s: no single bad item" % layout
 
 
+def scenario_valid(layout, ops):
+    """the preconditions of the property (fresh addresses, matching allocator kind): the shrinker must stay inside them"""
+    sim = Sim()
+    h = lambda x: int(x, 16)
+    for o in ops:
+        if o[0] == ":a" and h(o[1]) in sim.live:
+            return False
+        if o[0] == ":f" and o[1] != "~" and h(o[1]) in sim.live and sim.live[h(o[1])][4] != h(o[2]):
+            return False
+        if o[0] == ":r":
+            if o[1] == "~":
+                if h(o[2]) in sim.live:
+                    return False
+            elif h(o[1]) in sim.live:
+                if sim.live[h(o[1])][4] != h(o[4]) or (h(o[2]) in sim.live and h(o[2]) != h(o[1])):
+                    return False
+        sim.step(o)
+    return True
+
+
 def shrink(s):
+    for c in shrink_candidates(s):
+        if scenario_valid(*split_ops(c)):
+            yield c
+
+
+def shrink_candidates(s):
     layout, ops = split_ops(s)
     n = len(ops)
     # cut the tail after the first bad item is not known here: try halves, then single ops
